@@ -609,6 +609,8 @@ func (m *Muxer) handleMultivariantPlaylist(w http.ResponseWriter, r *http.Reques
 				break
 			}
 
+			verifYield("muxer.wait")
+
 			m.cond.Wait()
 		}
 
